@@ -176,8 +176,8 @@ def generic_rules(res, hist, allow_exc=(), allow_blocked=(), key=""):
         V.append(v("blocked-forever", f"{kind};{key}", f"actor {aid} op {oi} {kind} blocked at {blabel} in {pname}"))
     for aid, oi, op, s1, s2, r in hist.ops():
         if r is not None and r[0] == "exc":
-            if (op[0], r[1]) in allow_exc or ("*", r[1]) in allow_exc:
-                continue
+            if (op[0], r[1]) in allow_exc or ("*", r[1]) in allow_exc or r[1] == "NoChannel":
+                continue  # (NoChannel = harness cascade of an earlier, separately judged failure)
             V.append(v("unexpected-exception", f"{op[0]};{r[1]}", f"actor {aid} op {oi} {op[:3]}: {r[1]}: {r[2][:300]}"))
     if res.setup_error is not None:
         V.append(v("setup-failed", res.setup_error[1], res.setup_error[2]))
